@@ -7,6 +7,7 @@
 From BU Require Import Lib.Bytes Lib.PolyMod Lib.Sha256 Gen.Xbchutil Gen.Nets
   Base58.Base58 CashAddr.CashAddr Address.Bits Address.BitsProofs Address.Address Address.CashProofs
   Address.AddressProofs Address.DecodeProofs Address.LegacyProofs Address.RejectProofs Address.Spec Address.Final.
+From BU Require Import Gen.Kernels Tie.KernelsTie.
 
 (* (a) the three cash kinds x {cash, SLP} x four renderings decode back to the same address, which re-encodes to the same string; cash-prefixed ones are for the net *)
 Theorem C01_decode_encode_cash : forall (D : Deps) (net : net), wf_net net = true ->
@@ -83,3 +84,9 @@ Example C01_example : Final.dec Final.D0 mainnet
   [113;112;109;50;113;115;122;110;104;107;115;50;51;122;55;54;50;57;109;109;115;54;115;52;99;119;101;102;55;52;118;99;119;118;121;50;50;103;100;120;54;97]
   = Ok (PKH (cash_prefix mainnet) spec_example_hash).
 Proof. exact Final.mainnet_p2pkh_vector. Qed.
+
+(* the checksum register the theorems above speak about is the translation of the Go source of
+   polyMod (harness/cmd/gotrans -> Gen/Kernels.v): a structural change of polyMod breaks this *)
+Theorem C01_polymod_is_translated_source : forall v, Bytes v -> Kernels.polyMod v = CashAddr.polymod v.
+Proof. exact polyMod_tie. Qed.
+Print Assumptions C01_polymod_is_translated_source.
